@@ -59,7 +59,7 @@ def parseSkip (s : String) : Option (List (List Char)) :=
   else some ((s.splitOn ";").map parseName)
 
 def parseAlt (s : String) : List (List Char) :=
-  if s = "~" then [] else (s.splitOn ".").map parseName
+  if s = "~" ∨ s = "!" then [] else (s.splitOn ".").map parseName   -- `!`: the alternative was given as None
 
 def parseProds (s : String) : Option (List (List Char × List (List (List Char)))) :=
   (splitNonEmpty s ";").mapM fun it =>
